@@ -86,7 +86,7 @@ Proof.
   vm_compute in E. injection E as <-. cbn. repeat split; reflexivity.
 Qed.
 
-(* ---- the code (KFull: every iteration parks for the FULL timeout): one wake-up without data at 1.5 ms makes
+(* ---- the code BEFORE fix 3916da2 (KFull: every iteration parks for the FULL timeout): one wake-up without data at 1.5 ms makes
         recv_timeout(2 ms) / poll(Some(2 ms)) report Timeout 3.5 ms after the call although nothing delayed it ---- *)
 Definition full_late_run : list act :=
   [Call 2000000; Step false; Step false; Step false; Step false; Tick 1500000; Unpark; Step false; Step false; Step false;
@@ -105,10 +105,10 @@ Proof.
     vm_compute in E. injection E as <-. cbn. repeat split; try reflexivity; lia.
 Qed.
 
-(* the same script on the textbook loop: Timeout 2.5 ms after the call (0.5 ms left at the wake-up, armed as 1 ms) *)
+(* the same script on the code since the fix (KRem): Timeout 2.5 ms after the call (0.5 ms left at the wake-up, armed as 1 ms) *)
 Definition rem_run : list act :=
-  [Call 2000000; Step false; Step false; Step false; Step false; Step false; Tick 1500000; Unpark; Step false; Step false; Step false;
-   Step false; Step false; Step false; Tick 1000000; Step true; Step false; Step false; Step false].
+  [Call 2000000; Step false; Step false; Step false; Step false; Tick 1500000; Unpark; Step false; Step false; Step false;
+   Step false; Step false; Tick 1000000; Step true; Step false; Step false; Step false].
 
 Example rem_prompt_example :
   exists s, Reach KRem true armed s /\ res s = Some (RTimeout, 2500000, 0) /\ tcall s = 0 /\ dur s = 2000000.
@@ -121,10 +121,10 @@ Qed.
 (* non-vacuity of the quiescence theorems: a reachable state of the code in which the call is parked, nothing is
    enabled, and its timer is pending with a deadline in the future *)
 Example quiescent_parked_example :
-  exists s, Reach KFull true armed s /\ pcs s <> Idle /\ Quiescent KFull true armed s /\ dur s <= DCAP /\
+  exists s, Reach KRem true armed s /\ pcs s <> Idle /\ Quiescent KRem true armed s /\ dur s <= DCAP /\
             ar s = Some 2000000 /\ now s = 1000000 /\ tp s = 0.
 Proof.
-  destruct (run KFull true armed init [Call 1500000; Step false; Step false; Step false; Step false; Tick 1000000]) as [s|] eqn:E;
+  destruct (run KRem true armed init [Call 1500000; Step false; Step false; Step false; Step false; Tick 1000000]) as [s|] eqn:E;
     [|vm_compute in E; discriminate].
   exists s. split; [eapply run_reach; [constructor | exact E]|].
   vm_compute in E. injection E as <-. cbn. repeat split; try reflexivity; try discriminate.
@@ -132,13 +132,13 @@ Proof.
   all: try (unfold DCAP; vm_compute; discriminate).
 Qed.
 
-(* zero and sub-millisecond remaining durations: the textbook loop woken 1 ns before the deadline arms 1 ms, woken AT
-   the deadline or later it does not park at all but if it did (rem = 0) the timer is due at once: armed 0 = Some 0 *)
+(* zero and sub-millisecond durations: what is left 1 ns before the deadline is armed as 1 ms; a zero timeout / a zero
+   remainder is armed as Some 0 and due at once *)
 Example rem_zero_fires_at_once :
   exists s, Reach KRem false armed s /\ pcs s = Parked /\ ar s = Some 0 /\ tp s = now s /\ rem s = 0 /\
             exists s', cstep KRem false armed s true = Some s'.
 Proof.
-  destruct (run KRem false armed init [Call 0; Step false; Step false; Step false; Step false]) as [s|] eqn:E;
+  destruct (run KRem false armed init [Call 0; Step false; Step false; Step false]) as [s|] eqn:E;
     [|vm_compute in E; discriminate].
   exists s. split; [eapply run_reach; [constructor | exact E]|].
   vm_compute in E. injection E as <-. cbn. repeat split; try reflexivity. eexists; reflexivity.
